@@ -4,7 +4,8 @@
    to the centres of the first and last column (up to 31/64 px beyond the end points) and its slope is truncated; the margin
    that keeps it inside the next integer row is 1/64 px. *)
 From Coq Require Import ZArith Bool List Lia.
-From TS Require Import Base.F32 Base.Checked Gen.FixedGen Model.IntRect Model.HairlineAA Proofs.HairlineAAProofs.
+From TS Require Import Base.F32 Base.Checked Gen.FixedGen Model.Rect Model.IntRect Model.PathBuilder Model.HairlineAA Proofs.HairlineAAProofs.
+From TS Require Model.LineClip.
 Import ListNotations.
 Local Open Scope Z_scope.
 Ltac Zify.zify_post_hook ::= Z.div_mod_to_equations.
@@ -275,4 +276,141 @@ Proof.
   destruct (Z_lt_le_dec (Z.abs (y1 - y0)) (Z.abs (x1 - x0))) as [C | C].
   - destruct (short_unclipped_horizontal x0 y0 x1 y1 out H C Hy x y a Hin) as (X & Y & A). lia.
   - destruct (short_unclipped_vertical x0 y0 x1 y1 out H C Hx x y a Hin) as (Y & X & A). lia.
+Qed.
+
+(* ---- subdivision of long segments ------------------------------------------------------------------------------------------------ *)
+Lemma half_sum_bounds a b : Z.min a b - (if Z.odd (Z.min a b) then 1 else 0) <= shr a 1 + shr b 1 <= Z.max a b.
+Proof.
+  unfold shr. rewrite !Z.shiftr_div_pow2 by lia. change (2 ^ 1) with 2.
+  destruct (Z.odd (Z.min a b)) eqn:O.
+  - lia.
+  - assert (E : Z.even (Z.min a b) = true) by (rewrite <- Z.negb_odd, O; reflexivity). apply Z.even_spec in E. destruct E as (k & E).
+    destruct (Z.min_spec a b) as [(L & M) | (L & M)]; rewrite M in *; lia.
+Qed.
+
+Lemma floor64_half_lo m h : m - (if Z.odd m then 1 else 0) <= h -> m / 64 <= h / 64.
+Proof.
+  intros H. destruct (Z.odd m) eqn:O.
+  - (* m odd: m - 1 and m have the same floor *)
+    assert ((m - 1) / 64 = m / 64).
+    { apply Z.odd_spec in O. destruct O as (k & O). lia. }
+    rewrite <- H0. apply Z.div_le_mono; lia.
+  - apply Z.div_le_mono; lia.
+Qed.
+
+Lemma min_div_le m a b : m / 64 <= a / 64 -> m / 64 <= b / 64 -> m / 64 <= Z.min a b / 64.
+Proof. intros Ha Hb. destruct (Z.min_spec a b) as [(_ & ->) | (_ & ->)]; assumption. Qed.
+
+(* THE statement for the route without any clipping blitter, subdivision included *)
+Theorem do_anti_hairline_unclipped_inside fuel : forall x0 y0 x1 y1 out,
+  do_anti_hairline fuel x0 y0 x1 y1 None = Some out ->
+  64 <= Z.min x0 x1 -> 64 <= Z.min y0 y1 ->
+  forall x y a, In (x, y, a) out ->
+    Z.min x0 x1 / 64 - 1 <= x < (Z.max x0 x1 + 63) / 64 + 1 /\ Z.min y0 y1 / 64 - 1 <= y < (Z.max y0 y1 + 63) / 64 + 1 /\ 0 < a.
+Proof.
+  induction fuel as [|n IH]; intros x0 y0 x1 y1 out H Hx Hy x y a Hin; cbn [do_anti_hairline] in H.
+  - destruct (_ || _); [discriminate|]. destruct (negb _); [discriminate|].
+    apply bind_some in H. destruct H as (dx & _ & H). apply bind_some in H. destruct H as (dy & _ & H).
+    destruct ((32704 <? Z.abs dx) || (32704 <? Z.abs dy)); [discriminate|].
+    exact (short_unclipped_inside_ir _ _ _ _ _ H Hx Hy x y a Hin).
+  - destruct (_ || _); [discriminate|]. destruct (negb _); [discriminate|].
+    apply bind_some in H. destruct H as (dx & _ & H). apply bind_some in H. destruct H as (dy & _ & H).
+    destruct ((32704 <? Z.abs dx) || (32704 <? Z.abs dy)).
+    + apply bind_some in H. destruct H as (hx & Ehx & H). apply ck_some in Ehx. destruct Ehx as (Ehx & _).
+      apply bind_some in H. destruct H as (hy & Ehy & H). apply ck_some in Ehy. destruct Ehy as (Ehy & _).
+      apply bind_some in H. destruct H as (o1 & E1 & H). apply bind_some in H. destruct H as (o2 & E2 & H).
+      injection H as H. subst out.
+      pose proof (half_sum_bounds x0 x1) as Bx. pose proof (half_sum_bounds y0 y1) as By. rewrite <- Ehx in Bx. rewrite <- Ehy in By.
+      assert (Lx : Z.min x0 x1 / 64 <= hx / 64) by (apply floor64_half_lo; lia).
+      assert (Ly : Z.min y0 y1 / 64 <= hy / 64) by (apply floor64_half_lo; lia).
+      assert (Gx : 64 <= hx) by (destruct (Z.odd (Z.min x0 x1)) eqn:O; [apply Z.odd_spec in O; destruct O as (k & O); lia | lia]).
+      assert (Gy : 64 <= hy) by (destruct (Z.odd (Z.min y0 y1)) eqn:O; [apply Z.odd_spec in O; destruct O as (k & O); lia | lia]).
+      assert (Ux : (hx + 63) / 64 <= (Z.max x0 x1 + 63) / 64) by (apply Z.div_le_mono; lia).
+      assert (Uy : (hy + 63) / 64 <= (Z.max y0 y1 + 63) / 64) by (apply Z.div_le_mono; lia).
+      apply in_app_or in Hin. destruct Hin as [Hin | Hin].
+      * destruct (IH _ _ _ _ _ E1 ltac:(lia) ltac:(lia) x y a Hin) as (X & Y & A).
+        assert (Z.min x0 x1 / 64 <= Z.min x0 hx / 64) by (apply min_div_le; [apply Z.div_le_mono; lia | exact Lx]).
+        assert (Z.min y0 y1 / 64 <= Z.min y0 hy / 64) by (apply min_div_le; [apply Z.div_le_mono; lia | exact Ly]).
+        assert ((Z.max x0 hx + 63) / 64 <= (Z.max x0 x1 + 63) / 64) by (apply Z.div_le_mono; lia).
+        assert ((Z.max y0 hy + 63) / 64 <= (Z.max y0 y1 + 63) / 64) by (apply Z.div_le_mono; lia).
+        lia.
+      * destruct (IH _ _ _ _ _ E2 ltac:(lia) ltac:(lia) x y a Hin) as (X & Y & A).
+        assert (Z.min x0 x1 / 64 <= Z.min hx x1 / 64) by (apply min_div_le; [exact Lx | apply Z.div_le_mono; lia]).
+        assert (Z.min y0 y1 / 64 <= Z.min hy y1 / 64) by (apply min_div_le; [exact Ly | apply Z.div_le_mono; lia]).
+        assert ((Z.max hx x1 + 63) / 64 <= (Z.max x0 x1 + 63) / 64) by (apply Z.div_le_mono; lia).
+        assert ((Z.max hy y1 + 63) / 64 <= (Z.max y0 y1 + 63) / 64) by (apply Z.div_le_mono; lia).
+        lia.
+    + exact (short_unclipped_inside_ir _ _ _ _ _ H Hx Hy x y a Hin).
+Qed.
+
+
+(* ---- anti_hair_line_rgn for one segment: every pixel is inside the w x h pixmap ---------------------------------------------------- *)
+Ltac ir_binds H := repeat (let a := fresh "v" in let E := fresh "E" in apply bind_some in H; destruct H as (a & E & H)).
+
+Lemma ir_from_xywh_fields x y w h r : ir_from_xywh x y w h = Some r -> ix r = x /\ iy r = y /\ iw r = w /\ ih r = h /\ w <> 0 /\ h <> 0.
+Proof.
+  unfold ir_from_xywh. intros H. ir_binds H. destruct ((w =? 0) || (h =? 0)) eqn:Ez; [discriminate|]. injection H as H. subst r. cbn.
+  apply orb_false_iff in Ez. destruct Ez as (Z1 & Z2). apply Z.eqb_neq in Z1, Z2. repeat split; auto.
+Qed.
+
+Lemma ir_from_ltrb_fields l t r b ir : ir_from_ltrb l t r b = Some ir ->
+  ix ir = l /\ iy ir = t /\ ir_right ir = r /\ ir_bottom ir = b /\ l < r /\ t < b.
+Proof.
+  unfold ir_from_ltrb. intros H. ir_binds H.
+  unfold checked_sub, checked_i32 in *. unfold u32_of_i32 in *.
+  repeat match goal with E : (if ?c then _ else _) = Some _ |- _ => destruct c eqn:?; [let N := fresh "N" in injection E as N | discriminate E] end. subst.
+  match type of H with (if ?c then _ else _) = _ => destruct c eqn:Ez; [discriminate|] end. injection H as H. subst ir.
+  apply orb_false_iff in Ez. destruct Ez as (Z1 & Z2). apply Z.eqb_neq in Z1, Z2.
+  unfold ir_right, ir_bottom. cbn [ix iy iw ih].
+  repeat match goal with E : (0 <=? _) = true |- _ => apply Z.leb_le in E end. lia.
+Qed.
+
+Lemma ir_intersect_fields a b s : ir_intersect a b = Some s ->
+  ix s = Z.max (ix a) (ix b) /\ iy s = Z.max (iy a) (iy b) /\
+  ir_right s = Z.min (ir_right a) (ir_right b) /\ ir_bottom s = Z.min (ir_bottom a) (ir_bottom b).
+Proof.
+  unfold ir_intersect. cbv zeta. intros H. ir_binds H.
+  unfold checked_sub, checked_i32 in *. unfold u32_of_i32 in *.
+  repeat match goal with E : (if ?c then _ else _) = Some _ |- _ => destruct c eqn:?; [let N := fresh "N" in injection E as N | discriminate E] end. subst.
+  match type of H with (if ?c then _ else _) = _ => destruct c eqn:Ez; [discriminate|] end. injection H as H. subst s.
+  unfold ir_right, ir_bottom in *. cbn [ix iy iw ih]. lia.
+Qed.
+
+Theorem anti_hair_line_rgn_seg_inside w h p0 p1 out :
+  0 < w -> 0 < h ->
+  anti_hair_line_rgn_seg w h p0 p1 = Some out ->
+  forall x y a, In (x, y, a) out -> 0 <= x < w /\ 0 <= y < h /\ 0 < a.
+Proof.
+  intros Hw Hh H. unfold anti_hair_line_rgn_seg in H.
+  destruct fixed_bounds as [fb|]; [|discriminate].
+  destruct (Rect.from_ltrb _ _ _ _) as [cb|]; [|discriminate].
+  destruct (ir_from_xywh 0 0 w h) as [clip|] eqn:Ec; [|discriminate].
+  destruct (ir_from_xywh_fields _ _ _ _ _ Ec) as (Cx & Cy & Cw & Ch & _).
+  destruct (LineClip.intersect p0 p1 fb) as [(a0, b0)|]; [|injection H as H; subst out; intros x y a []].
+  destruct (LineClip.intersect a0 b0 cb) as [(c, d)|]; [|injection H as H; subst out; intros x y a []].
+  set (x0 := fdot6_of (px c)) in *. set (y0 := fdot6_of (py c)) in *. set (x1 := fdot6_of (px d)) in *. set (y1 := fdot6_of (py d)) in *.
+  cbv zeta in H.
+  apply bind_some in H. destruct H as (r & Er & H). apply fdot6_ceil_some in Er.
+  apply bind_some in H. destruct H as (b' & Eb & H). apply fdot6_ceil_some in Eb.
+  apply bind_some in H. destruct H as (l' & El & H). apply ck_some in El. destruct El as (El & _).
+  apply bind_some in H. destruct H as (t' & Et & H). apply ck_some in Et. destruct Et as (Et & _).
+  apply bind_some in H. destruct H as (r' & Er' & H). apply ck_some in Er'. destruct Er' as (Er' & _).
+  apply bind_some in H. destruct H as (b'' & Eb' & H). apply ck_some in Eb'. destruct Eb' as (Eb' & _).
+  rewrite !fdot6_floor_eq in *.
+  destruct (ir_from_ltrb l' t' r' b'') as [ir|] eqn:Eir; [|injection H as H; subst out; intros x y a []].
+  destruct (ir_from_ltrb_fields _ _ _ _ _ Eir) as (Ix & Iy & Ir & Ib & _ & _).
+  destruct (ir_intersect clip ir) as [sub|] eqn:Es; [|injection H as H; subst out; intros x y a []].
+  destruct (ir_intersect_fields _ _ _ Es) as (Sx & Sy & Sr & Sb).
+  unfold ir_right, ir_bottom in *. 
+  destruct (ir_contains clip ir) eqn:Ect.
+  - (* no clipping blitter at all *)
+    unfold ir_contains, ir_right, ir_bottom in Ect. repeat (apply andb_true_iff in Ect; destruct Ect as (Ect & ?)).
+    repeat match goal with E : (_ <=? _) = true |- _ => apply Z.leb_le in E end.
+    intros x y a Hin.
+    assert (Hx : 64 <= Z.min x0 x1) by lia. assert (Hy : 64 <= Z.min y0 y1) by lia.
+    destruct (do_anti_hairline_unclipped_inside _ _ _ _ _ _ H Hx Hy x y a Hin) as (X & Y & A). lia.
+  - destruct ((ix sub <? 0) || (iy sub <? 0)) eqn:Eneg; [injection H as H; subst out; intros x y a []|].
+    apply orb_false_iff in Eneg. destruct Eneg as (N1 & N2). apply Z.ltb_ge in N1, N2.
+    intros x y a Hin.
+    destruct (do_anti_hairline_clipped_inside _ _ _ _ _ _ _ _ _ _ N1 N2 H x y a Hin) as (X & Y & A). lia.
 Qed.
